@@ -33,6 +33,12 @@ type Result struct {
 	// pairwise distinct by construction (complete enumerations).  They are
 	// counted as evaluations and, if NonTrivial, as distinct non-trivial cases.
 	Sub int
+	// More carries further, independent violations found by the same batch case
+	// (each is matched against the known findings on its own).
+	More []Result
+	// Replay, when set, is the descriptor of a single-input case that reproduces
+	// this result on its own (batches set it so that a replay does not re-run the batch).
+	Replay json.RawMessage
 }
 
 func Hold() Result { return Result{V: Held, NonTrivial: true} }
